@@ -1378,7 +1378,16 @@ class BoundsAnalysis:
                 ok, why = True, 'index - len <= %d' % (bd + I[1] - L[1])
             else:
                 why = 'no bound of the index by the slice length on some path (best: %s)' % bd
-        self.sites[pt] = {'kind': 'boundscheck', 'ok': ok, 'why': why, 'span': t.get('s', ''), 'cont_ty': 'slice/array', 'container': None}
+        cty = 'slice/array'
+        lo = m['len']
+        if lo['k'] in ('copy', 'move') and not lo['p']['pr']:
+            d_ = _single_def(self.b, lo['p']['l'])
+            if d_ is not None and d_[1] == 'assign' and d_[2]['r']['k'] == 'un' and d_[2]['r']['o']['k'] in ('copy', 'move') \
+                    and not d_[2]['r']['o']['p']['pr']:
+                cty = self.b.local_ty(d_[2]['r']['o']['p']['l'])
+        elif lo['k'] == 'const':
+            cty = 'slice/array'
+        self.sites[pt] = {'kind': 'boundscheck', 'ok': ok, 'why': why, 'span': t.get('s', ''), 'cont_ty': cty, 'container': None}
 
 
 NEG = {'Lt': 'Ge', 'Le': 'Gt', 'Gt': 'Le', 'Ge': 'Lt', 'Eq': 'Ne', 'Ne': 'Eq'}
@@ -1543,12 +1552,12 @@ ASSUMED = {
     'Vec<rope::Rope>': (1, 'combined map: `chunks[idx]`, one chunk per 5-number segment of the same line (data-structure invariant)'),
     'Vec<&replace_source::Replacement>': (1, 'ReplaceSource::stream_chunks: `repls[i]` under `next_replacement.is_some()`, which is set '
                                              'only from `i < repls.len()` (option-valued invariant)'),
-    'Vec<(&str, usize)>': (3, 'rope Lines::next: the chunk cursor is advanced only while `< chunks.len() - 1`; the two `for_each` bodies '
-                              'index with the elements of `start_chunk_idx..end_chunk_idx + 1` / `start_chunk_idx..chunks.len()` '
-                              '(cursor invariant across calls and range iteration are not tracked)'),
-    '[T]@rope': (5, 'rope.rs: get_byte after `byte_index < self.len()` (rope-level length = sum of the piece lengths), '
-                    'CharIndices::next after skipping empty pieces (the last piece is never empty), Rope == Rope piece cursors '
-                    'bounded by the total byte count — data-structure invariants, not comparisons with the indexed slice\'s length'),
+    'Vec<(&str, usize)>': (4, 'rope.rs piece vectors: Lines::next indexes with its chunk cursor (advanced only while `< chunks.len() - 1`); '
+                              'CharIndices::next indexes after skipping empty pieces (the last piece is never empty); Rope == Rope walks two '
+                              'piece cursors bounded by the total byte count — data-structure invariants of the rope, not comparisons with '
+                              'the indexed vector\'s length'),
+    'Vec<u8>': (2, 'rope.rs get_byte: byte indexing after `byte_index < self.len()`, where the rope-level length is the sum of the piece '
+                   'lengths / the piece found by the binary search contains the position'),
 }
 
 
@@ -1586,15 +1595,22 @@ def _from_index_vector(b, o, depth=0):
 
 
 def _elem_group(site, body):
+    """group key of an access: the element type of the indexed sequence, the same for `Vec<T>`, `&[T]` and `[T; N]`"""
     import re
-    if site['kind'] == 'boundscheck':
+    ty = site.get('cont_ty') or ''
+    if site['kind'] == 'boundscheck' and (not ty or ty == 'slice/array'):
         mod = body.path.lstrip('<').split('::')[0]
         return '[T]@%s' % mod
-    ty = site['cont_ty']
     ty = re.sub(r"'[a-z_0-9]+,?\s*", '', ty)          # lifetimes
     ty = ty.replace('<>', '')
-    ty = re.sub(r'^&(mut )?', '', ty)
+    ty = re.sub(r'^(&(mut )?|\*const |\*mut )+', '', ty).strip()
     ty = ty.replace('std::vec::Vec', 'Vec')
+    m = re.match(r'^Vec<(.*)>$', ty)
+    if m:
+        return 'Vec<%s>' % m.group(1)
+    m = re.match(r'^\[(.*?)(; \d+)?\]$', ty)
+    if m:
+        return 'Vec<%s>' % m.group(1)
     return ty
 
 
